@@ -20,7 +20,11 @@
 // rule: `N` (no ACL stored), `T:<theta>:<name>=<w>,...` (threshold; weights and threshold are
 // integers in units of 1/4, so every value is an exact float64), `S:<set>;<set>...` (key sets; a
 // set is names joined by '+', `0` is the empty set).
+// A lookup fault: the env entry `<name>=E<k>` (also allowed for keys) makes the manager's GetAccountACL(<name>) answer an
+// error (k = 0..3 selects the error text: generic, kvdb not found, transaction not found, block not found); the method
+// rule `E<k>` makes GetContractMethodACL answer an error.  A rule that cannot be read must never be taken for "no rule".
 // owners: space separated `c<i>=<name>` (confirmed XCContract2Account entries).
+// vtx|...: end-to-end State.VerifyTx on a real node, see e2e.go.
 // writes: space separated: `A:<name>` XCAccount/<name>; `M:c<i>` XCContract/<c_i>\x01m; `MB` a
 // XCContract key without separator; `C:<name>` XCContract2Account/cX := name; `CN` the same with
 // a nil value; `O` some other bucket.
@@ -81,7 +85,7 @@ type member struct {
 }
 
 type rule struct {
-	kind    byte // 'N' none, 'T' threshold, 'S' key sets
+	kind    byte // 'N' none, 'T' threshold, 'S' key sets, 'E' the lookup answers an error (theta = error text class)
 	theta   int
 	members []member
 	sets    [][]string
@@ -90,6 +94,9 @@ type rule struct {
 func parseRule(s string) (*rule, error) {
 	if s == "N" {
 		return &rule{kind: 'N'}, nil
+	}
+	if len(s) == 2 && s[0] == 'E' && s[1] >= '0' && s[1] <= '3' {
+		return &rule{kind: 'E', theta: int(s[1] - '0')}, nil
 	}
 	if strings.HasPrefix(s, "T:") {
 		p := strings.SplitN(s[2:], ":", 2)
@@ -139,7 +146,10 @@ func parseRule(s string) (*rule, error) {
 	return nil, errors.New("bad rule")
 }
 
-func (r *rule) toACL() *pb.Acl {
+func (r *rule) toACL() *pb.Acl { return r.toACLn(realName) }
+
+// toACLn renders the rule with the given naming of the tokens (the end-to-end part uses real key pairs)
+func (r *rule) toACLn(realName func(string) string) *pb.Acl {
 	switch r.kind {
 	case 'T':
 		a := &pb.Acl{Pm: &pb.PermissionModel{Rule: pb.PermissionRule_SIGN_THRESHOLD, AcceptValue: float64(r.theta) / 4},
@@ -168,7 +178,7 @@ func parseEnv(s string) (env, error) {
 	e := env{}
 	for _, f := range strings.Fields(s) {
 		kv := strings.SplitN(f, "=", 2)
-		if len(kv) != 2 || !validTok(kv[0]) || isKeyTok(kv[0]) {
+		if len(kv) != 2 || !validTok(kv[0]) {
 			return nil, errors.New("bad env entry")
 		}
 		if _, dup := e[kv[0]]; dup {
@@ -177,6 +187,9 @@ func parseEnv(s string) (env, error) {
 		r, err := parseRule(kv[1])
 		if err != nil {
 			return nil, err
+		}
+		if isKeyTok(kv[0]) && r.kind != 'E' {
+			return nil, errors.New("bad env entry")
 		}
 		if r.kind != 'N' {
 			e[kv[0]] = r
@@ -224,24 +237,50 @@ func uriStr(us []uri) string {
 // ---------------------------------------------------------------- the fake ACL manager (base.AclManager)
 
 type fakeMgr struct {
-	accounts map[string]*pb.Acl
-	method   *pb.Acl
+	accounts  map[string]*pb.Acl
+	errs      map[string]error
+	method    *pb.Acl
+	methodErr error
+}
+
+// the error texts a lookup may answer (what the real manager passes on from the snapshot reader)
+var lookupErrors = []error{
+	errors.New("query account acl failed.err:xv: injected reader error"),
+	errors.New("query account acl failed.err:leveldb: not found"),
+	errors.New("query account acl failed.err:query tx fail.err:transaction not found"),
+	errors.New("query account acl failed.err:query block height fail.err:block not found"),
 }
 
 func newMgr(e env, method *rule) *fakeMgr {
-	m := &fakeMgr{accounts: map[string]*pb.Acl{}}
+	m := &fakeMgr{accounts: map[string]*pb.Acl{}, errs: map[string]error{}}
 	for a, r := range e {
+		if r.kind == 'E' {
+			m.errs[realName(a)] = lookupErrors[r.theta]
+			continue
+		}
 		m.accounts[realName(a)] = r.toACL()
 	}
 	if method != nil {
-		m.method = method.toACL()
+		if method.kind == 'E' {
+			m.methodErr = lookupErrors[method.theta]
+		} else {
+			m.method = method.toACL()
+		}
 	}
 	return m
 }
 
 // like the real manager: a name without stored ACL yields (nil, nil)
-func (m *fakeMgr) GetAccountACL(name string) (*pb.Acl, error) { return m.accounts[name], nil }
+func (m *fakeMgr) GetAccountACL(name string) (*pb.Acl, error) {
+	if err := m.errs[name]; err != nil {
+		return nil, err
+	}
+	return m.accounts[name], nil
+}
 func (m *fakeMgr) GetContractMethodACL(c, meth string) (*pb.Acl, error) {
+	if m.methodErr != nil {
+		return nil, m.methodErr
+	}
 	return m.method, nil
 }
 func (m *fakeMgr) GetAccountAddresses(name string) ([]string, error) { return nil, nil }
@@ -256,6 +295,9 @@ func (m *fakeMgr) GetAccountAddresses(name string) ([]string, error) { return ni
 func specSat(r *rule, e env, below []uri) bool {
 	if r == nil || r.kind == 'N' {
 		return true
+	}
+	if r.kind == 'E' {
+		return false // a rule that could not be read is satisfied by nobody
 	}
 	in := func(m string) bool {
 		if isKeyTok(m) {
@@ -346,7 +388,10 @@ func ar(b bool) string {
 }
 
 // classify gives the violation key: different root causes get different keys.
-func classify(impl, spec bool, us []uri) string {
+func classify(impl, spec bool, us []uri, faulty bool) string {
+	if impl && !spec && faulty {
+		return "acl:accept-under-lookup-error"
+	}
 	if impl && !spec {
 		for _, u := range us {
 			for i := 0; i+1 < len(u); i++ {
@@ -368,12 +413,32 @@ func classify(impl, spec bool, us []uri) string {
 	return "acl:reject-although-sat"
 }
 
+// faultyOp: the op line makes some lookup answer an error; then only acceptance is judged (rejecting is always right)
+func faultyOp(op string) bool {
+	f := strings.Split(op, "|")
+	if len(f) < 3 {
+		return false
+	}
+	if len(f[1]) == 2 && f[1][0] == 'E' {
+		return true
+	}
+	for _, e := range strings.Fields(f[2]) {
+		if i := strings.Index(e, "="); i >= 0 && len(e) == i+3 && e[i+1] == 'E' {
+			return true
+		}
+	}
+	return false
+}
+
 func check(out *xvlib.Out, op string, impl, spec bool, us []uri) {
 	if out == nil || impl == spec {
 		return
 	}
+	if !impl && faultyOp(op) {
+		return
+	}
 	op, impl, spec, us = shrink(op, impl, spec, us)
-	out.Violate(xvlib.Violation{Key: classify(impl, spec, us),
+	out.Violate(xvlib.Violation{Key: classify(impl, spec, us, faultyOp(op)),
 		What: fmt.Sprintf("the real evaluation answered %s but the rule is %s by the verified signers (sum of member weights / key sets over the last components)",
 			ar(impl), map[bool]string{true: "satisfied", false: "not satisfied"}[spec]),
 		Ops: []string{op}, Impl: []string{ar(impl)}})
@@ -532,6 +597,8 @@ func exec(line string, out *xvlib.Out) string {
 		return sb.String()
 	case "rw":
 		return execRW(f, line, out)
+	case "vtx":
+		return execVtx(f, line, out)
 	}
 	return "bad-op"
 }
